@@ -540,7 +540,7 @@ func evalModel(cs *modelCase) *verdict {
 		switch {
 		case res.Err != nil:
 			v.Status = "ok"
-		case strings.Contains(r.ApplyErr, "cannot use"), strings.Contains(r.ApplyErr, `unexpected "..."`):
+		case strings.Contains(r.ApplyErr, `unexpected "..."`):
 			v.Status = "unjudged:ill-typed-replacement"
 		case len(res.Sites) == 0:
 			v.Status = "unjudged:error-without-site"
@@ -551,7 +551,7 @@ func evalModel(cs *modelCase) *verdict {
 			// prints and parses back to itself, the replacement was
 			// admissible and the error means instances were left unrewritten.
 			v.Status = "unjudged:apply-error"
-			if res.Err == nil && !res.Ambiguous && res.Inadmissible == 0 {
+			if res.Err == nil && !res.Ambiguous {
 				exp := ref.Resolve(res.Expected, hostTree, ref.Output)
 				if rt, err := ref.RoundTrip(exp); err == nil && ref.Equal(ref.StripImports(rt), ref.StripImports(exp), ref.Output) {
 					v.Status = "discrepancy"
@@ -568,6 +568,13 @@ func evalModel(cs *modelCase) *verdict {
 	if res.Err != nil {
 		v.Status = "unjudged:reference-error"
 		v.Msg = res.Err.Error()
+		return v
+	}
+	if len(res.Sites) == 0 && res.Inadmissible > 0 {
+		// The '-' side occurs, but at no place can the replacement be put:
+		// whether the file-level parts of the change (package rename, added
+		// imports) then take effect is not said by any statement.
+		v.Status = "unjudged:only-inadmissible-sites"
 		return v
 	}
 	if res.Ambiguous {
